@@ -1,0 +1,71 @@
+//go:build verif
+
+package index
+
+import (
+	"github.com/RoaringBitmap/roaring"
+	segment "github.com/blugelabs/bluge_segment_api"
+)
+
+// VerifSegment describes one entry of a snapshot's segment list.
+type VerifSegment struct {
+	ID      uint64
+	Type    string
+	Version uint32
+	Deleted *roaring.Bitmap
+}
+
+type verifStubSegment struct {
+	segment.Segment
+	typ string
+	ver uint32
+}
+
+func (s *verifStubSegment) Type() string    { return s.typ }
+func (s *verifStubSegment) Version() uint32 { return s.ver }
+
+// VerifNewSnapshot builds a snapshot whose segments only answer Type and
+// Version, which is all that WriteTo needs.
+func VerifNewSnapshot(epoch uint64, segs []VerifSegment) *Snapshot {
+	rv := &Snapshot{epoch: epoch, refs: 1, creator: "verif"}
+	for _, s := range segs {
+		rv.segment = append(rv.segment, &segmentSnapshot{
+			id:      s.ID,
+			deleted: s.Deleted,
+			segment: &segmentWrapper{
+				Segment:    &verifStubSegment{typ: s.Type, ver: s.Version},
+				refCounter: noOpRefCounter{},
+			},
+			segmentType:    s.Type,
+			segmentVersion: s.Version,
+		})
+	}
+	return rv
+}
+
+// VerifSegments lists the segment entries of a snapshot; type and version
+// come from the loaded segment when there is one, else from the decoded file.
+func (i *Snapshot) VerifSegments() []VerifSegment {
+	rv := make([]VerifSegment, 0, len(i.segment))
+	for _, s := range i.segment {
+		vs := VerifSegment{ID: s.id, Type: s.segmentType, Version: s.segmentVersion, Deleted: s.deleted}
+		if s.segment != nil && s.segment.Segment != nil {
+			vs.Type = s.segment.Type()
+			vs.Version = s.segment.Version()
+		}
+		rv = append(rv, vs)
+	}
+	return rv
+}
+
+// VerifEpoch returns the epoch of a snapshot.
+func (i *Snapshot) VerifEpoch() uint64 { return i.epoch }
+
+// VerifPersisted reports, per segment, whether it is file backed.
+func (i *Snapshot) VerifPersisted() []bool {
+	rv := make([]bool, len(i.segment))
+	for j, s := range i.segment {
+		rv[j] = s.segment != nil && s.segment.Persisted()
+	}
+	return rv
+}
